@@ -21,7 +21,7 @@ Hop(n, m, lk) == [n |-> n, max |-> m, link |-> lk]
 HopsFull == {Hop(n, m, lk) : n \in PageSizes, m \in Maxes, lk \in BOOLEAN}
 HopsMid == {Hop(n, m, lk) : n \in (IF Quick THEN {0, 1, 2} ELSE {0, 1, 2, 3}), m \in {0, 2}, lk \in BOOLEAN}
 HopsSmall == {Hop(n, 0, lk) : n \in (IF Quick THEN {1, 2} ELSE {1, 2, 3}), lk \in BOOLEAN}
-HopsTiny == IF Quick THEN {Hop(1, 0, TRUE), Hop(2, 0, FALSE)} ELSE HopsSmall
+HopsTiny == IF Quick THEN {Hop(1, 0, TRUE), Hop(2, 0, FALSE)} ELSE {Hop(1, 0, TRUE), Hop(2, 0, FALSE), Hop(3, 0, TRUE)}
 \* consumer stop points (0: never declines)
 KsFull(u) == IF Quick THEN {0, 1, 2, 3} ELSE 0..u + 1
 Ks(u) == IF Quick THEN {0, 1, 2} ELSE 0..u + 1
@@ -46,21 +46,21 @@ Fam(kind, u, ks, nodes) == [kind |-> kind, u |-> u, starts |-> IF kind = "refs" 
 Repos ==
   <<Fam("repos", N1, 0..N1 + 1, Mems(N1)),
     Fam("repos", N1, KsFull(N1), {Http(1, h, m) : h \in HopsFull, m \in Mems(N1)}),
-    Fam("repos", N3, Ks(N3), {Http(2, h, Http(1, g, m)) : h \in HopsMid, g \in HopsSmall, m \in Mems(N3)}),
+    Fam("repos", N3, Ks(N3), {Http(2, h, Http(1, g, m)) : h \in HopsMid, g \in HopsTiny, m \in Mems(N3)}),
     Fam("repos", N2, 0..N2 + 1, {Select(p, m) : p \in Preds(N2), m \in Mems(N2)}),
-    Fam("repos", N2, Ks(N2), {Http(1, h, Select(p, m)) : h \in HopsSmall, p \in Preds(N2), m \in Mems(N2)}),
-    Fam("repos", N2, Ks(N2), {Select(p, Http(1, h, m)) : h \in HopsSmall, p \in Preds(N2), m \in Mems(N2)}),
+    Fam("repos", N2, Ks(N2), {Http(1, h, Select(p, m)) : h \in HopsTiny, p \in Preds(N2), m \in Mems(N2)}),
+    Fam("repos", N2, Ks(N2), {Select(p, Http(1, h, m)) : h \in HopsTiny, p \in Preds(N2), m \in Mems(N2)}),
     Fam("repos", N2, Ks(N2), {Debug(Http(1, h, Debug(m))) : h \in HopsSmall, m \in Mems(N2)}),
     Fam("repos", N2, Ks(N2), {Unify(m, m2) : m \in Mems(N2), m2 \in Seconds(N2)}),
-    Fam("repos", N3, Ks(N3), {Http(1, h, Unify(m, m2)) : h \in HopsMid, m \in Mems(N3), m2 \in Seconds(N3)}),
-    Fam("repos", N3, Ks(N3), {Unify(Http(1, h, m), Http(2, g, m2)) : h \in HopsMid, g \in HopsTiny, m \in Mems(N3), m2 \in Seconds(N3)})>>
+    Fam("repos", N3, Ks(N3), {Http(1, h, Unify(m, m2)) : h \in HopsSmall, m \in Mems(N3), m2 \in Seconds(N3)}),
+    Fam("repos", N3, Ks(N3), {Unify(Http(1, h, m), Http(2, g, m2)) : h \in HopsSmall, g \in HopsTiny, m \in Mems(N3), m2 \in Seconds(N3)})>>
 
 \* Sub changes the universe: the view has cnt elements of the N2 underneath
 SubFam(lo, cnt) ==
   Fam("repos", cnt, Ks(cnt),
       {Sub(lo, cnt, m) : m \in Mems(N2)}
-        \cup {Http(1, h, Sub(lo, cnt, m)) : h \in HopsSmall, m \in Mems(N2)}
-        \cup {Sub(lo, cnt, Http(1, h, m)) : h \in HopsSmall, m \in Mems(N2)})
+        \cup {Http(1, h, Sub(lo, cnt, m)) : h \in HopsTiny, m \in Mems(N2)}
+        \cup {Sub(lo, cnt, Http(1, h, m)) : h \in HopsTiny, m \in Mems(N2)})
 Subs == <<SubFam(0, N2), SubFam(1, N2 - 2), SubFam(1, N2 - 1), SubFam(0, N2 - 1)>>
 
 \* tags: as repositories, but the repository may be unknown to a registry, and
@@ -69,8 +69,8 @@ Tags ==
   <<Fam("tags", N2, Ks(N2), {Http(1, h, m) : h \in HopsMid, m \in MemsA(N2)}),
     Fam("tags", N3, Ks(N3), {Unify(m, m2) : m \in MemsA(N3), m2 \in MemsA(N3)}),
     Fam("tags", N3, Ks(N3), {Http(1, h, Unify(m, m2)) : h \in HopsSmall, m \in MemsA(N3), m2 \in SecondsA(N3)}),
-    Fam("tags", N3, Ks(N3), {Unify(Http(1, h, m), m2) : h \in HopsMid, m \in MemsA(N3), m2 \in SecondsA(N3)}),
-    Fam("tags", N3, Ks(N3), {Unify(m2, Http(1, h, m)) : h \in HopsMid, m \in MemsA(N3), m2 \in SecondsA(N3)}),
+    Fam("tags", N3, Ks(N3), {Unify(Http(1, h, m), m2) : h \in HopsSmall \cup {Hop(3, 2, TRUE)}, m \in MemsA(N3), m2 \in SecondsA(N3)}),
+    Fam("tags", N3, Ks(N3), {Unify(m2, Http(1, h, m)) : h \in HopsSmall \cup {Hop(3, 2, TRUE)}, m \in MemsA(N3), m2 \in SecondsA(N3)}),
     Fam("tags", N3, Ks(N3), {Sub(1, 1, Select({}, Http(1, h, m))) : h \in HopsSmall, m \in MemsA(N3)})>>
 
 \* referrers: no start point; ociclient does not page them
